@@ -554,7 +554,10 @@ pub fn try_(ops: Ops, pattern: bool, env: &mut Uiua) -> UiuaResult {
                 if !pattern {
                     err.meta.is_case = false;
                 }
-                _ = env.remove_n(try_args.saturating_sub(f_sig.args()), try_args)?;
+                // The stack has already been truncated to below f's arguments,
+                // so the remaining try arguments are exactly the top values
+                let remaining = try_args.saturating_sub(f_sig.args());
+                _ = env.remove_n(remaining, remaining)?;
                 return Err(err);
             }
             if takes_error {
